@@ -27,7 +27,7 @@ RULE = ('operation sequences over all public operations of DataFieldRecordArray 
         'keep/conversions/copy, copy, get_selection, set_selection, append, append_field, __setitem__, '
         'remove_field, rename_fields, tidy_up, sort_by_field, convert_dtypes, set_field_dtype, indices), '
         'bounded-exhaustive over a fixed alphabet of 14 state-dependent letters: all words of length 4 over 7, length 3 over 7 and length 2 over 16 letters '
-        '(quick) / length 4 over 14, length 5 over 8 and length 6 over 6 letters (thorough, words continuing after a failed step '
+        '(quick) / length 4 over 14, length 3 over 18, length 5 over 8 and length 6 over 6 letters (thorough, words continuing after a failed step '
         'pruned), random up to length 40 on tables with 0..50 rows and 1..5 fields of dtypes '
         'int16/int32/int64/float64, plus a malformed stream (missing fields, wrong lengths, indices out of '
         'range, colliding renames); a case is one whole sequence, distinct by hash of its operations')
@@ -1071,7 +1071,9 @@ def run(ctx):
     base = ['append01', 'addcol', 'remove0', 'rename13', 'select', 'setsel0L', 'sort', 'copy', 'indices', 'setselL0',
             'selblock', 'selmask', 'copyempty', 'copyone']
     if ctx.thorough():
-        seqs += exhaustive(ctx, DFRA, base + ['tidy', 'convert', 'append10', 'setitem1'], 4, False)
+        seqs += exhaustive(ctx, DFRA, ['append01', 'addcol', 'remove0', 'rename13', 'setsel0L', 'sort', 'copy', 'indices',
+                                       'setselL0', 'selblock', 'copyempty', 'tidy', 'convert', 'append10'], 4, False)
+        seqs += exhaustive(ctx, DFRA, base + ['tidy', 'convert', 'append10', 'setitem1'], 3, False)
         seqs += exhaustive(ctx, DFRA, ['append01', 'addcol', 'remove0', 'rename13', 'select', 'setsel0L', 'sort', 'copy'], 5, True)
         seqs += exhaustive(ctx, DFRA, ['append01', 'rename13', 'select', 'setsel0L', 'sort', 'indices'], 6, True)
     else:
